@@ -165,3 +165,24 @@ Proof.
       * rewrite Z.gtb_ltb in G. apply Z.ltb_lt in G. specialize (H c (or_introl eq_refl)). lia.
     + rewrite Z.add_0_l. reflexivity.
 Qed.
+
+(* all sampled cells active: the entries add up to n * dt = length *)
+Lemma countp_all {A} (p : A -> bool) l : (forall x, In x l -> p x = true) -> countp p l = Z.of_nat (length l).
+Proof.
+  induction l as [|x l IH]; intros H; [reflexivity|].
+  cbn [countp length]. rewrite (H x (or_introl eq_refl)), IH by (intros y Hy; apply H; right; exact Hy). lia.
+Qed.
+
+Lemma all_active_total vm L cells B s0 : cells <> [] ->
+  (forall c, In c cells -> (-1 < vm c < Z.of_nat B)%Z) ->
+  sum_bins (accumulate_simple vm (dt_of L (Z.of_nat (length cells))) cells s0) B == sum_bins s0 B + L.
+Proof.
+  intros Hne H. rewrite simple_total by (intros c Hc; apply H; exact Hc).
+  rewrite countp_all.
+  - unfold dt_of. assert (Hn : ~ inject_Z (Z.of_nat (length cells)) == 0).
+    { destruct cells; [contradiction|]. cbn [length]. intros E.
+      assert (0 < inject_Z (Z.of_nat (S (length cells)))) by (change 0 with (inject_Z 0); rewrite <- Zlt_Qlt; lia).
+      rewrite E in H0. exact (Qlt_irrefl 0 H0). }
+    field. exact Hn.
+  - intros c Hc. specialize (H c Hc). apply Z.gtb_lt. lia.
+Qed.
